@@ -25,6 +25,8 @@ type Val struct {
 	Bind []Val // closure bindings
 	Bad  string // non-empty: value could not be modelled (reason); T is an unconstrained constant
 	Parts []string // for locally constructed slices: base, off, len, cap (lets len()/cap() fold to simple terms)
+	LZ    int      // number of low bits known to be zero (value is a multiple of 2^LZ)
+	UB    int      // value known to be in [0, 2^UB) when UB > 0
 }
 
 func slPart(v Val, i int) string {
@@ -492,7 +494,7 @@ func (g *Gen) oblige(kind, name, label string, props []string, reach, cond, src 
 	}
 	o.NCmds = len(g.cmds)
 	g.obligs = append(g.obligs, o)
-	if kind != "cover" && kind != "requires-sat" {
+	if kind != "cover" && kind != "cover-info" && kind != "requires-sat" {
 		// assert-then-assume
 		g.assume(sImp(reach, cond))
 	}
